@@ -18,17 +18,20 @@ PROPS = {
     },
     "C02": {
         "module": "Cdecao.Props.C02",
+        "extra_modules": ["Cdecao.Props.EngineTie"],
         "theorems": ["Props.C02_node_bound", "Props.C02_node_mono", "Props.C02_cover", "Props.C02_node_none", "Props.C02_feas_in_sol",
                      "Props.C02_feas_optimal", "Props.C02_wrong_empty", "Props.C02_compose", "Props.C02_partial", "Props.noFreeableb_sound", "Props.C02_full_counterexample", "Props.F1_root", "Props.F1_enforce", "Props.F1_cancel"],
         "streams": ["solve-norooms", "node-norooms", "hungarian", "engine", "cli-simple"],
     },
     "C03": {
         "module": "Cdecao.Props.C03",
+        "extra_modules": ["Cdecao.Props.EngineTie"],
         "theorems": ["Props.C03", "Props.C03_bounded_of_spec", "Props.C03_caobab", "Props.C03_F11_not_bounded", "Props.F11_root", "Props.F11_enforce2", "Props.F11_enforce2_cancel0"],
         "streams": ["engine", "solve", "solve-rooms", "engine-exhaustive", "cli-simple"],
     },
     "C04": {
         "module": "Cdecao.Props.C04",
+        "extra_modules": ["Cdecao.Props.EngineTie"],
         "theorems": ["Props.C04_no_deadlock", "Props.C04_done_means_finished", "Props.C04_stats_step", "Props.C04_bounded_work",
                      "Props.C04_stats_reach", "Props.C04_panicked", "Props.C04_stats_at_done", "Props.C04_stats_at_finished", "Props.C04_done_absorbing", "Props.C04_join",
                      "Props.C04_caobab_wf", "Props.C04_caobab_budget", "Props.C04_caobab_run_bound", "Props.C04_caobab_gen_bound",
@@ -62,6 +65,7 @@ PROPS = {
     },
     "C09": {
         "module": "Cdecao.Props.C09",
+        "extra_modules": ["Cdecao.Props.EngineTie"],
         "theorems": ["Props.C09", "Props.C09_none_iff"],
         "streams": ["engine", "engine-exhaustive"],
     },
@@ -114,6 +118,7 @@ PROPS = {
     },
     "C19": {
         "module": "Cdecao.Props.C19",
+        "extra_modules": ["Cdecao.Props.EngineTie"],
         "theorems": ["Props.C19_no_hang", "Props.C19_bounded_work", "Props.C19_dead_absorbing", "Props.C19_failure_reported", "Props.C19_join_not_stuck",
                      "Props.C19_outcome_final", "Props.C19_panicked_pos", "Props.C19_terminates", "Props.C19_terminates_dead", "Props.C19_terminates_dying",
                      "Props.C19_terminates_verdict", "Props.C19_terminates_no_panic"],
@@ -128,7 +133,7 @@ PROPS = {
 
 NOT_APPLICABLE = {}
 
-_ENG = "bab.rs is modelled as the transition system Eng3.step? (micro-steps of the worker loop); real executions are serialised by the scheduler shim and replayed event by event through step? (trace inclusion). Trusted: std Mutex/Condvar semantics, purity of the node solver."
+_ENG = "bab.rs is modelled as the transition system Eng3.step? (micro-steps of the worker loop); real executions are serialised by the scheduler shim and replayed event by event through step? (trace inclusion). Structural part of the tie (Props.engine_sync_tie): the synchronisation skeleton of bab.rs — the fields of SharedState, the imported primitives, the order of lock / wait / notify_one / notify_all / spawn / join / catch_unwind in the source, and the absence of any other primitive (atomics, second lock, timed wait, unsafe) — is re-extracted on every run and must equal the skeleton the model was written against, because the shim switches threads only at lock, wait and join and could not exhibit an interleaving inside a lock-free path. Trusted: std Mutex/Condvar semantics, purity of the node solver."
 _NODE = "run_bab_node / hungarian_algorithm are modelled by N2.runNodeS / H2.run; every node of the real search trees of generated instances is compared (kind, score, assignment, exact child lists, panics)."
 
 LEVELS = {
